@@ -123,7 +123,13 @@ impl EventLoop {
     pub fn clean(&mut self) {
         self.network = None;
         self.keepalive_timeout = None;
-        self.pending.extend(self.state.clean());
+
+        // What was in flight on this connection goes in front of the requests still
+        // pending from an earlier connection (if this one failed while replaying them):
+        // it was sent first and has to be sent first again
+        let mut pending: VecDeque<Request> = self.state.clean().into();
+        pending.append(&mut self.pending);
+        self.pending = pending;
 
         // drain requests from channel which weren't yet received
         let mut requests_in_channel: Vec<_> = self.requests_rx.drain().collect();
